@@ -505,7 +505,8 @@ def c15(report, rng, tier, findings):
             corr = ('cmp', rng.choice(('eq', 'eq', 'ne', 'lt')), ('attr', rng.choice('ab'), ('var', z)),
                     ('attr', rng.choice('ab'), ('var', x)))
             inner_c = rng.choice([('or', corr, gz.atom()), ('or', gz.atom(), corr), ('and', corr, gz.atom()), corr,
-                                  ('or', corr, ('and', gz.atom(), gz.atom()))])
+                                  ('or', corr, ('and', gz.atom(), gz.atom())), ('or', corr, gz.atom()), ('or', gz.atom(), corr),
+                                  ('or', corr, ('cmp', 'ge', ('attr', 'a', ('var', z)), ('lit', ('i', 0))))])
             f, g_ = rng.choice('ab'), rng.choice('ab')
             op = rng.choice(('eq', 'eq', 'ne', 'lt', 'ge'))
             sqc = ('subq', 'an', z, inner_c)
@@ -514,7 +515,7 @@ def c15(report, rng, tier, findings):
             if rng.random() < 0.3:
                 atom_i = ('cmp', MIRROR_OP[op], atom_i[3], atom_i[2])
                 atom_e = ('cmp', MIRROR_OP[op], atom_e[3], atom_e[2])
-            sel_ = [('var', z)] if rng.random() < 0.7 else [('var', z), ('var', x)]
+            sel_ = [('var', z)] if rng.random() < 0.85 else [('var', z), ('var', x)]
             case = dict(base)
             case.update({'sel': sel_, 'entity': len(sel_) == 1, 'cond': [atom_i],
                          'explicit': {**base, 'sel': sel_, 'entity': len(sel_) == 1, 'cond': [inner_c, atom_e]},
